@@ -1020,7 +1020,7 @@ func c16SuiteSlots(c *Ctx) {
 				case ki != "" && ai != "" && ki != ai:
 					r.Bad("C16.8", cons, c.Pos(cl), "KdfId and AeadId are taken from different candidates (%s vs %s): the pair is not one of the candidate list", ki, ai)
 				default:
-					r.Ok("C16.8", cons, c.Pos(cl), "KdfId<-"+kr+" AeadId<-"+ar)
+					r.Ok("C16.8", cons, c.Pos(cl), "KdfId<-%s AeadId<-%s", kr, ar)
 				}
 				return true
 			})
